@@ -2,3 +2,7 @@
 #![allow(unused_imports, unused_variables, unused_mut, dead_code, unused_assignments, unreachable_code, unused_parens)]
 use vstd::prelude::*;
 use vstd::std_specs::cmp::OrdSpec;
+verus! {
+// target is x86_64: usize/isize are 64 bits (the repository's only supported deployment; stated assumption)
+global size_of usize == 8;
+}
